@@ -27,7 +27,7 @@ use core::str::FromStr;
 use core::task;
 
 use crate::prelude::*;
-use crate::{io, log_error};
+use crate::{io, log_error, log_info};
 
 use crate::chain;
 use crate::chain::chaininterface::{BroadcasterInterface, FeeEstimator};
@@ -1567,6 +1567,20 @@ impl<
 		}
 		for (update_name, update_res) in MultiResultFuturePoller::new(update_futures).await {
 			let update = update_res?;
+			// Updates are stored under independent keys, so a later update may have become durable
+			// before an earlier one. Nothing after the first missing update was reported as
+			// persisted, so stop there rather than applying updates out of order.
+			if update.update_id != u64::MAX
+				&& update.update_id != monitor.get_latest_update_id().saturating_add(1)
+			{
+				log_info!(
+					self.logger,
+					"Not applying ChannelMonitorUpdate {} and later for monitor {} as an earlier update is missing",
+					update_name.as_str(),
+					monitor_key,
+				);
+				break;
+			}
 			monitor
 				.update_monitor(&update, &self.broadcaster, &self.fee_estimator, &self.logger)
 				.map_err(|e| {
